@@ -39,3 +39,8 @@ func (v *VerifFragment) MergeBlock(id int, rowIDs, columnIDs [][]uint64) (setRow
 	}
 	return setRows, setCols, clearRows, clearCols, err
 }
+
+// TopNSrc calls fragment.top with N and a source row to intersect with.
+func (v *VerifFragment) TopNSrc(n int, src *Row) ([]Pair, error) {
+	return v.f.top(topOptions{N: n, Src: src})
+}
